@@ -9,7 +9,7 @@ use crate::vstrings::*;
 use nodejs_semver::Version;
 use serde_json::json;
 
-pub const RULE: &str = "cases = strings given to Version::parse (and str::parse / serde_json::from_str); X every string over the 9-character version alphabet {0,1,9,a,-,+,.,v,blank} up to length 7 (quick) / 9 (thorough) (exhaustive), N every one-edit neighbour (insert/delete/replace/append over 21 characters incl. multi-byte, NUL, newline) of a canonical corpus, J the junk examples of the statement, S loose spellings of canonical versions, L lengths 250..260 and components around MAX_SAFE_INTEGER / 2^64, R random token soups; oracle = hand-written recogniser with denotation: strict SemVer strings must parse, a parse may succeed only inside the loose envelope (blanks, v/V, leading zeros, letter-initial prerelease without hyphen), returned fields must equal the denoted numbers and identifiers; non-trivial = the string has a well-formed `N.N.N` core prefix (so acceptance hinges on what follows); distinct = distinct strings";
+pub const RULE: &str = "cases = strings given to Version::parse (and str::parse / serde_json::from_str); X every string over the 9-character version alphabet {0,1,9,a,-,+,.,v,blank} up to length 7 (quick) / 10 (thorough) (exhaustive), N every one-edit neighbour (insert/delete/replace/append over 21 characters incl. multi-byte, NUL, newline) of a canonical corpus, J the junk examples of the statement, S loose spellings of canonical versions, L lengths 250..260 and components around MAX_SAFE_INTEGER / 2^64, R random token soups; oracle = hand-written recogniser with denotation: strict SemVer strings must parse, a parse may succeed only inside the loose envelope (blanks, v/V, leading zeros, letter-initial prerelease without hyphen), returned fields must equal the denoted numbers and identifiers; non-trivial = the string has a well-formed `N.N.N` core prefix (so acceptance hinges on what follows); distinct = distinct strings";
 
 pub fn judge(ctx: &mut Ctx, s: &str, full: bool) {
     ctx.begin(|| format!("C05 parse {:?}", s));
@@ -100,7 +100,7 @@ pub fn run(ctx: &mut Ctx) {
         }
     }
     ctx.stratum("X-exhaustive-version-alphabet", true);
-    let max_len = ctx.tier.pick(7, 9);
+    let max_len = ctx.tier.pick(7, 10);
     let mut n = 0u64;
     exhaustive(ctx, max_len, &mut |ctx, s| {
         n += 1;
